@@ -147,7 +147,9 @@ class BitStringBitReader(BitReader):
         return self._bit_stream_read(fmt_string)
 
     def read_bool(self):
-        return self._bit_stream_read('bool')
+        # Reading a 'bool' at the end of the stream makes bitstring raise a plain
+        # ValueError, reading one bit as uint reports the shortage as a ReadError
+        return self._bit_stream_read('uint:1') == 1
 
     def read_bin(self, nbits):
         return self._bit_stream_read('bin:{}'.format(nbits))
